@@ -3,7 +3,7 @@
    hypothesis `disjoint (locs r) (locs a)` is MEASURED per (operation, parameter class) on pyttb by
    tools/props/c05.py (np.shares_memory + cross-writes), not proved for pyttb's code. *)
 From Coq Require Import List Arith Bool.
-From PV Require Import Model.C05Store.
+From PV Require Import Model.C05Store Model.C05View.
 Import ListNotations.
 
 Section C05.
@@ -60,7 +60,8 @@ End C05.
 (* the measured-row checker used by the correspondence: a passing row has the bits the property demands *)
 Theorem C05_row_check_sound : forall r, row_check r = true ->
   r_unchanged r = true /\
-  (r_kind r <> KNoCopy -> r_disjoint r = true /\ r_vis_result r = false /\ r_vis_operand r = false).
+  (r_kind r <> KNoCopy -> r_disjoint r = true /\ r_vis_result r = false /\ r_vis_operand r = false) /\
+  (r_kind r = KNoCopy -> r_extra_ok r = true).
 Proof. exact row_check_sound. Qed.
 
 Theorem C05_disjointb_spec : forall l1 l2, disjointb l1 l2 = true <-> disjoint l1 l2.
@@ -76,6 +77,162 @@ Print Assumptions C05_copy_independent.
 Print Assumptions C05_copy_independent_sym.
 Print Assumptions C05_row_check_sound.
 Print Assumptions C05_disjointb_spec.
+
+(* ==== numpy view model (Model/C05View.v): which numpy operations allocate, which alias ======================== *)
+Section C05View.
+Context {V : Type}.
+
+(* ndarray.copy (either order), advanced indexing and computed results live in a buffer newer than every existing
+   array's, and leave every existing buffer as it was *)
+Theorem C05_view_copy_fresh : forall (h : @heap V) a,
+  (ext h (fst (copyC h a)) /\ fresh_res h (fst (copyC h a)) (snd (copyC h a))) /\
+  (ext h (fst (copyF h a)) /\ fresh_res h (fst (copyF h a)) (snd (copyF h a))).
+Proof. exact copy_fresh_both. Qed.
+
+(* ... and a copy shows, element for element, what the original showed *)
+Theorem C05_view_copy_contents : forall (h : @heap V) a, inb (hst h) a ->
+  read (hst (fst (copyC h a))) (snd (copyC h a)) = read (hst h) a /\
+  readF (hst (fst (copyF h a))) (snd (copyF h a)) = readF (hst h) a.
+Proof. exact copy_contents_both. Qed.
+
+Theorem C05_view_fancy_fresh : forall (h : @heap V) a s ks,
+  ext h (fst (fancy h a s ks)) /\ fresh_res h (fst (fancy h a s ks)) (snd (fancy h a s ks)).
+Proof. exact fancy_fresh. Qed.
+
+Theorem C05_view_fresh_not_old : forall (h h' : @heap V) r a, fresh_res h h' r -> wf_arr h a -> abuf r <> abuf a.
+Proof. exact fresh_not_old. Qed.
+
+(* np.reshape(order="F"): alias of the argument in an untouched heap, or fresh; a view whenever the shape is unchanged
+   or the argument is F-contiguous *)
+Theorem C05_view_reshape : forall (h : @heap V) a s,
+  alias_or_fresh h a (reshapeF h a s) /\
+  ((list_eqb s (ashape a) = true \/ is_fcontig a = true) -> fst (reshapeF h a s) = h /\ abuf (snd (reshapeF h a s)) = abuf a).
+Proof. exact reshapeF_spec. Qed.
+
+(* np.asfortranarray returns its argument iff that is already F-contiguous *)
+Theorem C05_view_asfortran_alias_iff : forall (h : @heap V) a, wf_arr h a ->
+  (abuf (snd (asfortran h a)) = abuf a <-> is_fcontig a = true).
+Proof. exact asfortran_alias_iff. Qed.
+
+(* a result in buffers disjoint from the operands' may be written at will: no operand array shows a difference *)
+Theorem C05_view_read_frame : forall (s : @store V) (opds res : list arr) (ws : list (@wr V)),
+  aliases opds res = false -> (forall w, In w ws -> In (wloc w) (map abuf res)) ->
+  forall a, In a opds -> read (run s ws) a = read s a.
+Proof. exact read_frame. Qed.
+
+(* ---- may-alias verdicts of the transliterated pyttb return paths, for all heaps / arrays / parameters ---------- *)
+Theorem C05_tensor_copy_verdict : forall (h : @heap V) X, wf_arr h X -> aliases [X] [snd (tensor_copy h X)] = false.
+Proof. exact tensor_copy_verdict. Qed.
+Theorem C05_tensor_permute_verdict : forall (h : @heap V) X p, wf_arr h X -> aliases [X] [snd (tensor_permute h X p)] = false.
+Proof. exact tensor_permute_verdict. Qed.
+Theorem C05_tensor_reshape_verdict : forall (h : @heap V) X s, wf_arr h X -> aliases [X] [snd (tensor_reshape h X s)] = false.
+Proof. exact tensor_reshape_verdict. Qed.
+Theorem C05_tensor_squeeze_verdict : forall (h : @heap V) X, wf_arr h X -> aliases [X] [snd (tensor_squeeze h X)] = false.
+Proof. exact tensor_squeeze_verdict. Qed.
+Theorem C05_tensor_getitem_verdict : forall (h : @heap V) X k shape ks, wf_arr h X ->
+  aliases [X] [snd (tensor_getitem_basic h X k)] = false /\ aliases [X] [snd (tensor_getitem_fancy h X shape ks)] = false.
+Proof. exact tensor_getitem_verdict. Qed.
+Theorem C05_tensor_init_nocopy_verdict : forall (h : @heap V) d, wf_arr h d ->
+  aliases [d] [snd (tensor_init h d (ashape d) false)] = is_fcontig d.
+Proof. exact tensor_init_nocopy_verdict. Qed.
+Theorem C05_tensor_to_tenmat_copy_verdict : forall (h : @heap V) X dims r c, wf_arr h X ->
+  aliases [X] [snd (tensor_to_tenmat h X dims r c true)] = false.
+Proof. exact tensor_to_tenmat_copy_verdict. Qed.
+Theorem C05_tensor_to_tenmat_nocopy_verdict : forall (h : @heap V) X dims r c, wf_arr h X ->
+  aliases [X] [snd (tensor_to_tenmat h X dims r c false)] = is_fcontig (v_transpose X dims).
+Proof. exact tensor_to_tenmat_nocopy_verdict. Qed.
+Theorem C05_tenmat_getitem_verdict : forall (h : @heap V) D k shape ks, wf_arr h D ->
+  aliases [D] [snd (tenmat_getitem_basic h D k)] = false /\ aliases [D] [snd (tenmat_getitem_fancy h D shape ks)] = false.
+Proof. exact tenmat_getitem_verdict. Qed.
+Theorem C05_sptensor_find_verdict : forall (h : @heap V) subs vals, wf_arr h subs -> wf_arr h vals ->
+  aliases [subs; vals] (snd (sptensor_find h subs vals)) = false.
+Proof. exact sptensor_find_verdict. Qed.
+Theorem C05_sptensor_copy_verdict : forall (h : @heap V) subs vals, wf_arr h subs -> wf_arr h vals ->
+  aliases [subs; vals] (snd (sptensor_copy h subs vals)) = false.
+Proof. exact sptensor_copy_verdict. Qed.
+Theorem C05_sptensor_init_nocopy_verdict : forall (h : @heap V) subs vals,
+  aliases [subs; vals] (snd (sptensor_init h subs vals false)) = true.
+Proof. exact sptensor_init_nocopy_verdict. Qed.
+Theorem C05_tenmat_copy_verdict : forall (h : @heap V) D, wf_arr h D -> aliases [D] [snd (tenmat_copy h D)] = false.
+Proof. exact tenmat_copy_verdict. Qed.
+Theorem C05_tenmat_init_nocopy_verdict : forall (h : @heap V) d, wf_arr h d ->
+  aliases [d] [snd (tenmat_init h d false)] = is_fcontig d.
+Proof. exact tenmat_init_nocopy_verdict. Qed.
+Theorem C05_ktensor_copy_verdict : forall (h : @heap V) fms w, (forall a, In a (w :: fms) -> wf_arr h a) ->
+  aliases (w :: fms) (snd (ktensor_copy h fms w)) = false.
+Proof. exact ktensor_copy_verdict. Qed.
+Theorem C05_ktensor_extract_verdict : forall (h : @heap V) fms w n ks, (forall a, In a (w :: fms) -> wf_arr h a) ->
+  aliases (w :: fms) (snd (ktensor_extract h fms w n ks)) = false.
+Proof. exact ktensor_extract_verdict. Qed.
+Theorem C05_ktensor_tolist_verdict : forall (h : @heap V) fms w u, (forall a, In a (w :: fms) -> wf_arr h a) ->
+  aliases (w :: fms) (snd (ktensor_tolist h fms u)) = false.
+Proof. exact ktensor_tolist_verdict. Qed.
+Theorem C05_ktensor_init_nocopy_factors_verdict : forall (h : @heap V) fms w, (forall a, In a (w :: fms) -> wf_arr h a) -> fms <> [] ->
+  aliases fms (tl (snd (ktensor_init h fms w false))) = forallb is_fcontig fms.
+Proof. exact ktensor_init_nocopy_factors_verdict. Qed.
+Theorem C05_khatrirao_single_verdict : forall (h : @heap V) A, wf_arr h A -> aliases [A] [snd (khatrirao_single h A)] = false.
+Proof. exact khatrirao_single_verdict. Qed.
+End C05View.
+
+(* transpose, basic slicing, integer indexing and squeeze are windows onto the same buffer *)
+Theorem C05_view_alias : forall a p k i j,
+  abuf (v_transpose a p) = abuf a /\ abuf (v_slice a k) = abuf a /\ abuf (v_int a i j) = abuf a /\ abuf (v_squeeze a) = abuf a.
+Proof. exact view_alias. Qed.
+
+Print Assumptions C05_view_copy_fresh.
+Print Assumptions C05_view_copy_contents.
+Print Assumptions C05_view_fancy_fresh.
+Print Assumptions C05_sptensor_copy_verdict.
+Print Assumptions C05_sptensor_init_nocopy_verdict.
+Print Assumptions C05_tenmat_copy_verdict.
+Print Assumptions C05_tenmat_init_nocopy_verdict.
+Print Assumptions C05_view_fresh_not_old.
+Print Assumptions C05_view_reshape.
+Print Assumptions C05_view_asfortran_alias_iff.
+Print Assumptions C05_view_read_frame.
+Print Assumptions C05_view_alias.
+Print Assumptions C05_tensor_copy_verdict.
+Print Assumptions C05_tensor_permute_verdict.
+Print Assumptions C05_tensor_reshape_verdict.
+Print Assumptions C05_tensor_squeeze_verdict.
+Print Assumptions C05_tensor_getitem_verdict.
+Print Assumptions C05_tensor_init_nocopy_verdict.
+Print Assumptions C05_tensor_to_tenmat_copy_verdict.
+Print Assumptions C05_tensor_to_tenmat_nocopy_verdict.
+Print Assumptions C05_tenmat_getitem_verdict.
+Print Assumptions C05_sptensor_find_verdict.
+Print Assumptions C05_ktensor_copy_verdict.
+Print Assumptions C05_ktensor_extract_verdict.
+Print Assumptions C05_ktensor_tolist_verdict.
+Print Assumptions C05_ktensor_init_nocopy_factors_verdict.
+Print Assumptions C05_khatrirao_single_verdict.
+
+(* non-vacuity of the view model: a 2x3 F-ordered matrix exF in buffer 0 of a heap with one buffer; its transpose exT
+   (a C-ordered window on the same buffer); a row-strided window exS *)
+Example C05_view_examples :
+  is_fcontig exF = true /\ is_fcontig exT = false /\ is_ccontig exT = true /\ is_fcontig exS = false /\ is_ccontig exS = false /\
+  addrsC exF = [0; 2; 4; 1; 3; 5] /\ addrsC exT = [0; 1; 2; 3; 4; 5] /\
+  (* the no-copy constructor shares an F-ordered argument and copies the others *)
+  aliases [exF] [snd (tensor_init (h0 1) exF [2; 3] false)] = true /\
+  aliases [exT] [snd (tensor_init (h0 1) exT [3; 2] false)] = false /\
+  aliases [exS] [snd (tensor_init (h0 1) exS [2; 3] false)] = false /\
+  (* the copy made for the C-ordered argument holds the same elements, now F-ordered in a new buffer *)
+  read (hst (fst (tensor_init (h0 1) exT [3; 2] false))) (snd (tensor_init (h0 1) exT [3; 2] false)) = read (hst (h0 1)) exT /\
+  abuf (snd (tensor_init (h0 1) exT [3; 2] false)) = 1 /\
+  inb (hst (h0 1)) exT /\
+  (* permute with the identity order, reshape to the same shape, a full-range region read: all fresh *)
+  aliases [exF] [snd (tensor_permute (h0 1) exF [0; 1])] = false /\
+  aliases [exF] [snd (tensor_reshape (h0 1) exF [2; 3])] = false /\
+  aliases [exF] [snd (tensor_getitem_basic (h0 1) exF [KSlice (0, 2, 1); KSlice (0, 3, 1)])] = false /\
+  (* to_tenmat(copy=False) with all modes as rows in order shares; with the modes swapped it cannot *)
+  aliases [exF] [snd (tensor_to_tenmat (h0 1) exF [0; 1] 6 1 false)] = true /\
+  aliases [exF] [snd (tensor_to_tenmat (h0 1) exF [1; 0] 6 1 false)] = false /\
+  (* a window is NOT independent: writing element (0,1) of the transposed window changes exF's element (1,0) *)
+  read (run (hst (h0 1)) [(0, 1, 77)]) exF <> read (hst (h0 1)) exF.
+Proof.
+  vm_compute. repeat split; try reflexivity; try discriminate.
+  intros k [H|H]; repeat (destruct H as [H|H]; [subst k; repeat constructor|]); destruct H.
+Qed.
 
 (* ---- non-vacuity: concrete instances ---------------------------------------------------- *)
 (* store with three buffers; r = {0,1}, a = {2}; r and a disjoint; writing through r changes r, not a *)
@@ -105,12 +262,13 @@ Proof. repeat split; reflexivity. Qed.
 (* the table checker: a clean pure row passes; a view-returning row (identity permute) fails; a no-copy
    construction may share but must not modify *)
 Example C05_rows_example :
-  row_check (mkRow KPure true true false false) = true /\
-  row_check (mkRow KPure true false true true) = false /\
-  row_check (mkRow KPure false true false false) = false /\
-  row_check (mkRow KInplace true true false false) = true /\
-  row_check (mkRow KInplace false true false false) = false /\
-  row_check (mkRow KNoCopy true false true true) = true /\
-  row_check (mkRow KNoCopy false false true true) = false /\
+  row_check (mkRow KPure true true false false true) = true /\
+  row_check (mkRow KPure true false true true true) = false /\
+  row_check (mkRow KPure false true false false true) = false /\
+  row_check (mkRow KInplace true true false false true) = true /\
+  row_check (mkRow KInplace false true false false true) = false /\
+  row_check (mkRow KNoCopy true false true true true) = true /\
+  row_check (mkRow KNoCopy false false true true true) = false /\
+  row_check (mkRow KNoCopy true false true true false) = false /\
   sim_visible true = false /\ sim_visible false = true.
 Proof. repeat split; reflexivity. Qed.
